@@ -44,9 +44,17 @@ def _fin(node):
 def _nest(node):
     # re-entrant use of the library: parse another document with the same
     # context before the outer parse continues
-    if NESTED['inner'] is not None and NESTED['parse_fn'] is not None:
+    if NESTED['inner'] is not None and NESTED['parse_fn'] is not None and not NESTED.get('busy'):
         ctx = node.parsing_state.latex_context
-        NESTED['results'].append(NESTED['parse_fn'](ctx, NESTED['inner']))
+        NESTED['busy'] = True
+        try:
+            if NESTED['inner'] == '@same':
+                # ... with the very walker that is in the middle of the outer parse (its own text again)
+                NESTED['results'].append(NESTED['same_fn'](node.latex_walker))
+            else:
+                NESTED['results'].append(NESTED['parse_fn'](ctx, NESTED['inner']))
+        finally:
+            NESTED['busy'] = False
     return node
 
 
